@@ -199,6 +199,17 @@ CORPUS = [
     ('term-prio', {'rules': [gen.rule('start', [gen.alt([['t', 'W']]), gen.alt([['t', 'A'], ['t', 'B']])])],
                    'terms': [gen.term('W', ['x', '[ab]+', ''], prio=1), gen.term('A', ['x', 'a', ''], prio=2), gen.term('B', ['x', 'b', ''], prio=2)]},
      ('dynamic', 'dynamic_complete'), ['ab']),
+    # rules with priorities whose alternatives contain [..]: lark gives such alternatives an options object of their own
+    # (the placeholder positions), which priority='invert' has to reach as well
+    ('invert-with-placeholders', {'rules': [gen.rule('start', [gen.alt([_r('x')]), gen.alt([_r('y')])]),
+                                            gen.rule('x', [gen.alt([['m', [gen.alt([['t', 'X']])]], ['t', 'Y']])], prio=2),
+                                            gen.rule('y', [gen.alt([['m', [gen.alt([['t', 'X']])]], ['t', 'Y']])], prio=1)],
+                                  'terms': [gen.term('X', ['s', 'x', '']), gen.term('Y', ['s', 'y', ''])]}, ('basic', 'dynamic'), ['xy', 'y']),
+    ('invert-with-placeholders-2', {'rules': [gen.rule('start', [gen.alt([['q', _r('item'), '+', 0, 0]])]), gen.rule('item', [gen.alt([_r('lo')]), gen.alt([_r('hi')])]),
+                                              gen.rule('lo', [gen.alt([['t', 'W'], ['m', [gen.alt([['t', 'COMMA']])]]]), gen.alt([['t', 'W'], ['t', 'W']])], prio=-3),
+                                              gen.rule('hi', [gen.alt([['m', [gen.alt([['t', 'SIGN']])]], ['t', 'W']]), gen.alt([['t', 'COMMA']])], prio=5)],
+                                    'terms': [gen.term('W', ['s', 'w', '']), gen.term('COMMA', ['s', ',', '']), gen.term('SIGN', ['s', '+', ''])]},
+     ('basic', 'dynamic'), ['w,+w', 'ww', 'w,w', '+w,']),
     ('empty-vs-nonempty', {'rules': [gen.rule('start', [gen.alt([_r('x'), _r('x')])]), gen.rule('x', [gen.alt([]), gen.alt([a])], prio=1)]},
      ('basic', 'dynamic'), ['a', 'aa', '']),
 ]
